@@ -23,6 +23,9 @@ RULE = ('texts generated from (a) all sequences of <=3 tokens over the '
         'parsing exception, or has >=2 tokens and parses; distinct = distinct '
         '(engine, text)')
 ASSUMPTIONS = [
+    'a single parse that runs for more than 30 s of wall clock (the slowest '
+    'case on the unchanged tree takes well under 0.1 s) is killed by a '
+    'watchdog and reported as non-termination',
     'termination is checked by a token-fetch budget of 4*len(text)+16, not '
     'by wall clock',
     'nesting depth beyond a few thousand levels is not explored',
@@ -78,6 +81,7 @@ def check_parse(run, case):
     text = common.dec(case['text'])
     name = case['engine']
     eng = get_engine(name)
+    run.guard(case)
     lexhook.install()
     budget = _Budget(4 * len(text) + 16)
     lexhook.set_hook(budget)
@@ -286,9 +290,37 @@ def long_inputs(full):
     return out
 
 
+WATCHDOG = 30
+
+
+def _list_shard(run, which, full, names, part, parts):
+    texts = escape_grid(full) if which == 'escapes' else long_inputs(full)
+    for text in texts[part::parts]:
+        for name in names:
+            check_parse(run, {'kind': 'parse', 'engine': name,
+                              'text': common.enc(text)})
+
+
+def _hyp_shard(run, which, n, shard):
+    engines = list(ENGINES)
+    if which == 'soups':
+        strat = _soups()
+    elif which == 'mutations':
+        alpha_chars = set(''.join(alphabet('custom1') + alphabet('custom2')))
+        strat = _mutations(alpha_chars)
+    else:
+        strat = st.builds(
+            lambda name, t: {'kind': 'parse', 'engine': name,
+                             'text': common.enc(t)},
+            st.sampled_from(engines), st.text(st.characters(), max_size=30))
+    run.hyp(which, strat, lambda c: check_parse(run, c), n, shard=shard)
+
+
 def run(run):
     full = run.tier == 'thorough'
     engines = list(ENGINES)
+    for name in engines:
+        get_engine(name)        # build once, inherited by the forked shards
     # (a) exhaustive token sequences
     jobs = []
     for name in engines:
@@ -299,7 +331,7 @@ def run(run):
             # chunk by first token for load balancing
             for i in range(0, len(alpha), 4):
                 jobs.append((name, 3, alpha[i:i + 4]))
-    run.shards(_enum_shard, jobs)
+    run.shards(_enum_shard, jobs, watchdog=WATCHDOG)
     run.extra['exhaustive_subspace'] = (
         'all token sequences of length <=%s over the per-engine token '
         'alphabet (%s), with and without blanks' % (
@@ -307,25 +339,15 @@ def run(run):
             '3 for the default engine, <=2 for the others',
             ', '.join('%s:%d tokens' % (n, len(alphabet(n)))
                       for n in engines)))
-    # (d) escape grid and (e) long inputs, every engine
-    for text in escape_grid(full):
-        for name in (engines if full else ['default', 'legacy']):
-            check_parse(run, {'kind': 'parse', 'engine': name,
-                              'text': common.enc(text)})
-    for text in long_inputs(full):
-        for name in (engines if full else ['default']):
-            check_parse(run, {'kind': 'parse', 'engine': name,
-                              'text': common.enc(text)})
+    # (d) escape grid and (e) long inputs
+    jobs = [('escapes', full, engines if full else ['default', 'legacy'],
+             i, 8) for i in range(8)]
+    jobs += [('long', full, engines if full else ['default'], i, 8)
+             for i in range(8)]
+    run.shards(_list_shard, jobs, watchdog=WATCHDOG)
     # (b) soups, (c) mutations, (f) arbitrary text
-    alpha_chars = set(''.join(alphabet('custom1') + alphabet('custom2')))
+    k = 8 if full else 4
     n = 40000 if full else 2500
-    run.hyp('soups', _soups(), lambda c: check_parse(run, c), n)
-    run.hyp('mutations', _mutations(alpha_chars),
-            lambda c: check_parse(run, c), n)
-    text_cases = st.builds(
-        lambda name, t: {'kind': 'parse', 'engine': name,
-                         'text': common.enc(t)},
-        st.sampled_from(engines),
-        st.text(st.characters(), max_size=30))
-    run.hyp('text', text_cases, lambda c: check_parse(run, c),
-            20000 if full else 1500)
+    jobs = [(w, (n if w != 'text' else n // 2) // k, i)
+            for w in ('soups', 'mutations', 'text') for i in range(k)]
+    run.shards(_hyp_shard, jobs, watchdog=WATCHDOG)
